@@ -11,7 +11,9 @@ shell nodes, top-level split), run with AuditFlag.PROV or ALL through FileMessen
                              forest is the pool entry's expected execution forest
   spec oracle (independent)  on the raw messages and the result files in the cache root: one activity per executed job,
                              exactly one start (with startedAtTime) and one end record per activity id, end not before start,
-                             no end without start, the multiset of errored flags equals that of the stored results and that of the
+                             no end without start, and — over ALL activity ids of the log, job and monitor alike, read by `@id` +
+                             `startedAtTime` / `endedAtTime` — exactly one start and one end record per id and the expected number
+                             of ids (jobs, plus one monitor per job under ALL); the multiset of errored flags equals that of the stored results and that of the
                              pool definition, named activities carry the flag of the job of that name, one monitor per job (ALL)
 """
 
@@ -35,7 +37,9 @@ META = {
     "C36_full — the executed jobs get pairwise different activity ids, each has exactly one start and exactly one end record under "
     "its id, no other id has any, and every end record's errored flag is that of its job's result; C36_bracket — the start precedes "
     "the end (nested jobs' records in between); C36_starts / C36_ends — the exact lists; C36_tasks — audit_task records carry the "
-    "job's own id and name; C36_monitor — one monitor activity per job under ALL.  C36_witness_shared documents the repaired "
+    "job's own id and name; C36_monitor — one monitor activity per job under ALL; C36_all_activities — over the record log read by @id alone, every "
+    "activity id (job and monitor) is opened at most once and has exactly one end record under that same id, nothing else is "
+    "ended (C36_witness_end_id: a log whose monitor end record is filed under the job's id is not).  C36_witness_shared documents the repaired "
     "defect D21 (one shared Audit object: the workflow's activity has no end record, the last node's has two), "
     "C36_shared_partial that sharing is harmless without nesting.  Tied to pydra/engine/audit.py, utils/messenger.py, "
     "engine/job.py by parsing the emitted JSON-LD files (no network: the context is only named, never fetched). C36_skeleton (decide over the regenerated skeleton of Job.run / run_async): start_audit once before and finalize_audit once after the body (in finally, before the result is saved) on every executing path, neither on a cached path, audit_task only in the synchronous run under PROV.",
@@ -57,6 +61,9 @@ OBLIGATIONS = [
         "C36_bracket",
         "C36_tasks",
         "C36_monitor",
+        "C36_all_activities",
+        "C36_opened_count",
+        "C36_witness_end_id",
         "C36_witness_shared",
         "C36_regression_own",
         "C36_shared_partial",
@@ -137,6 +144,9 @@ def correspondence(ctx):
     assert corpus[0] == D21_WITNESS
     cases = [c for c in corpus if c["worker"] == "debug"]
     cases += [{"name": n, "x": 3, "worker": "debug", "flags": "PROV"} for n in NAMES]
+    # AuditFlag.ALL (job AND monitor activities): python + shell, ok + fail, and nesting, every run
+    all_names = ["inc", "boom", "echo", "false", "w3f", "wsh"] if ctx.quick else NAMES
+    cases += [{"name": n, "x": 4, "worker": "debug", "flags": "ALL"} for n in all_names]
     cases += [gen_case(ctx.rng, "debug") for _ in range(ctx.pick(4, 120))]
     cf = [c for c in corpus if c["worker"] == "cf"] + [gen_case(ctx.rng, "cf") for _ in range(ctx.pick(1, 12))]
     run_cases(ctx, cases + cf)
